@@ -72,6 +72,41 @@ pub fn check(c: &Case, obs: &mut Obs) -> Result<(), String> {
     };
     let ctx = |what: String| format!("{what}\n  document {doc:?}\n  path {:?} ({ast:?})", c.pc.path);
     let p = || parse_json_path(text).unwrap();
+    // the convenience functions also take the document as JSON text: same answers as for the
+    // encoding of that text
+    if doc.all_finite() && doc.size() < 3000 {
+        let du = doc.unsigned_norm();
+        let (ru, tu) = (du.enc(), crate::textref::model_text(&du, &[(root.len() as u16).wrapping_mul(13), 3, 8]));
+        type F = fn(&[u8], jsonb::jsonpath::JsonPath, &mut Vec<u8>, &mut Vec<u64>) -> Result<(), jsonb::Error>;
+        for (name, f) in [("get_by_path", jsonb::get_by_path as F), ("get_by_path_first", jsonb::get_by_path_first as F), ("get_by_path_array", jsonb::get_by_path_array as F)] {
+            let run = |d: &[u8]| -> Result<(bool, Vec<u8>, Vec<u64>), String> {
+                let (mut data, mut offs) = (Vec::new(), Vec::new());
+                let r = nopanic(name, || f(d, p(), &mut data, &mut offs))?;
+                Ok((r.is_ok(), if r.is_ok() { data } else { vec![] }, if r.is_ok() { offs } else { vec![] }))
+            };
+            let (rb, rt) = (run(&ru)?, run(&tu)?);
+            if rb != rt {
+                return Err(ctx(format!(
+                    "{name} on the JSON text {:?} gives ok={} {} / {:?}, on its encoding ok={} {} / {:?}",
+                    String::from_utf8_lossy(&tu),
+                    rt.0,
+                    hex(&rt.1),
+                    rt.2,
+                    rb.0,
+                    hex(&rb.1),
+                    rb.2
+                )));
+            }
+        }
+        let eb = nopanic("path_exists", || jsonb::path_exists(&ru, p()).map_err(|_| ()))?;
+        let et = nopanic("path_exists(text)", || jsonb::path_exists(&tu, p()).map_err(|_| ()))?;
+        let mb = nopanic("path_match", || jsonb::path_match(&ru, p()).map_err(|_| ()))?;
+        let mt = nopanic("path_match(text)", || jsonb::path_match(&tu, p()).map_err(|_| ()))?;
+        if eb != et || mb != mt {
+            return Err(ctx(format!("path_exists / path_match on the JSON text give {et:?} / {mt:?}, on its encoding {eb:?} / {mb:?}")));
+        }
+        obs.label("text-form-document");
+    }
     for pre in [(vec![], vec![]), (c.prefix.0.clone(), c.offs.clone())] {
         let all = sel(&root, text, Mode::All, &pre).map_err(&ctx)?;
         let first = sel(&root, text, Mode::First, &pre).map_err(&ctx)?;
